@@ -175,6 +175,9 @@ pub struct BucketShape {
     /// keys per leaf page, left to right
     pub leaves: Vec<Vec<Vec<u8>>>,
     pub branches: u32,
+    /// per leaf with at least two elements: (file offset of the first byte of its first key,
+    /// that byte, the first byte of the second key)
+    pub first_key_at: Vec<(u64, u8, u8)>,
 }
 
 #[derive(Clone, Debug, Default)]
@@ -461,6 +464,16 @@ impl<'a> Walk<'a> {
                         }
                         x => {
                             self.err(format!("{}: leaf page {} element {} has invalid type {}", what, id, i, x));
+                        }
+                    }
+                    if i == 0 && count >= 2 && ks >= 1 {
+                        bs.first_key_at.push((id * self.ps + s as u64, run[s], 0));
+                    }
+                    if i == 1 && ks >= 1 {
+                        if let Some(l) = bs.first_key_at.last_mut() {
+                            if l.0 / self.ps == id {
+                                l.2 = run[s];
+                            }
                         }
                     }
                     *last_key = Some(key.clone());
